@@ -332,7 +332,7 @@ class Popup:
 
     def command(self, verb, arg):
         """arg: everything after the first space (bytes, may contain spaces).
-        Returns ('ok',) ('err', why) ('quit',) or ('auth', user, password)"""
+        Returns ('ok',) ('err', why) ('quit',), ('auth', user, password) or ('auth_or_err', user, password)"""
         if verb == b"NOOP":
             return ("ok",)
         if verb == b"QUIT":
@@ -349,11 +349,15 @@ class Popup:
                 return ("err", "empty-pass")
             return ("auth", self.user, arg)
         if verb == b"APOP":
-            t = arg.split(b" ")
+            t = arg.split(b" ", 1)
             if len(t) < 2 or t[0] == b"" or t[1] == b"":
                 return ("err", "apop-syntax")
-            if len(t) > 2:
-                raise OutsideDomain("APOP with more than two arguments")
+            if b" " in t[1]:
+                # more blanks than RFC 1939's "APOP name digest": a server may refuse the line; if it does run the
+                # checker, the credentials are the name and everything after the first blank, verbatim
+                if t[1].strip(b" ") == b"":
+                    raise OutsideDomain("APOP with a blank digest")
+                return ("auth_or_err", t[0], t[1])
             return ("auth", t[0], t[1])
         return ("err", "not-authenticated")
 
